@@ -1043,7 +1043,16 @@ class Attribute(utils.EventEmitter, Generic[_T]):
 
         self.emit(self.EVENT_READ, connection, b'' if value is None else value)
 
-        return b'' if value is None else self.encode_value(value)
+        if value is None:
+            return b''
+        try:
+            return self.encode_value(value)
+        except Exception as error:
+            # The request must still be answered
+            logger.exception('!!! cannot encode attribute value')
+            raise ATT_Error(
+                error_code=ATT_UNLIKELY_ERROR_ERROR, att_handle=self.handle
+            ) from error
 
     async def write_value(self, bearer: Bearer, value: bytes) -> None:
         connection = bearer.connection if is_enhanced_bearer(bearer) else bearer
@@ -1069,7 +1078,20 @@ class Attribute(utils.EventEmitter, Generic[_T]):
                 error_code=ATT_INSUFFICIENT_AUTHORIZATION_ERROR, att_handle=self.handle
             )
 
-        decoded_value = self.decode_value(value)
+        try:
+            decoded_value = self.decode_value(value)
+        except Exception as error:
+            # The value can't be decoded (wrong length, invalid encoding...): the
+            # request must still be answered
+            logger.warning(f'!!! cannot decode attribute value: {error}')
+            raise ATT_Error(
+                error_code=(
+                    ATT_INVALID_ATTRIBUTE_LENGTH_ERROR
+                    if isinstance(error, struct.error)
+                    else ErrorCode.VALUE_NOT_ALLOWED
+                ),
+                att_handle=self.handle,
+            ) from error
 
         match self.value:
             case AttributeValue():
